@@ -21,6 +21,37 @@ CHECKS = {
             "Seeded search as C01 plus bulk size and the agent's per-response GETBULK truncation policy (peer nondeterminism drawn "
             "from the plan); differential against a twin GETNEXT walk of the same plan and against the MIB model.",
             "deterministic simulation: bulk walk vs. twin GETNEXT walk and MIB model under seeded agent truncation policies and loss"),
+    "C03": ("exploration", "6 C03",
+            "Seeded search over byzantine agents (sorted successor overridden by explicit deviations: same/smaller OID, cycles, "
+            "leaving and re-entering the subtree, endOfMibView anywhere) x walk/multiwalk/bulkwalk/table/bulktable x strict/lenient; "
+            "non-termination is a deterministic verdict at a fixed request number (agent request cap), no wall clock involved.",
+            "deterministic simulation: real client vs. scripted adversarial agent, request-cap liveness verdict, request-log oracle"),
+    "C04": ("exploration", "6 C04",
+            "Seeded search over databases, operation sequences, OID lists and protocol levels, with one agent count fault "
+            "(added / dropped binding, over-long or short GETBULK) per run; oracle = the agent's request log (what was asked) "
+            "and the response it actually sent (what must come back, in order).",
+            "deterministic simulation: operation sequences vs. reference agent with injected binding-count faults, log oracle"),
+    "C05": ("exploration", "6 C05",
+            "Invariant on every datagram reaching the recording sender seam: an independent strict RFC 1157/3416/3412 decoder "
+            "must read back the intent record (version, community or v3 header/security parameters/context, PDU type, "
+            "request-id = a clock reading, zero error fields or bulk parameters, OIDs and typed SET values). The simulator "
+            "contributes the wall clock (request ids across Integer32) and the discovery reply; there is no fault dimension.",
+            "deterministic simulation: sender-seam invariant checked by an independent BER/SNMP decoder over seeded argument sweeps"),
+    "C06": ("exploration", "6 C06",
+            "The reference agent is an independent encoder whose legal length-form choice per TLV is drawn from the plan "
+            "(peer nondeterminism); values over full ranges must reach the caller with type and value intact, and every "
+            "response seen is decoded/re-encoded by the code under test and compared as content by the independent decoder.",
+            "deterministic simulation: agent-side encoding nondeterminism (length forms) seeded per TLV, value and re-encoding oracle"),
+    "C07": ("exploration", "6 C07",
+            "Seeded search over operation x wall-clock behaviour (tied, constant, advancing on every read, jumping) x agent "
+            "behaviour at the k-th request (echo, id+-1, arbitrary, previous id, foreign community/version, foreign discovery "
+            "msgID); echo must succeed exactly as the tied-clock twin run, everything else must raise.",
+            "deterministic simulation: simulated wall clock (stepping/jumping) and id-perturbing agent, twin-run oracle"),
+    "C08": ("exploration", "6 C08",
+            "The matrix status x index class x binding list x operation x protocol (18 216 cells) is enumerated completely in "
+            "the thorough tier (seeded 3 000-cell sample in quick) against a scripted agent; oracle is an independent RFC 3416 "
+            "status->exception table, error_status and offending_oid.",
+            "deterministic simulation: scripted error-status agent, full matrix enumeration, RFC table oracle"),
 }
 
 NOT_APPLICABLE = {
